@@ -372,7 +372,7 @@ class USD:
         :rtype: boolean"""
         cmd_position = self.current_position + position
         if self.delayed_execution is True:
-            self.position_queue.put((cmd_position, False))
+            self.position_queue.put((position, False))
             self.ready = True
         else:
             if self.running:
